@@ -50,6 +50,7 @@ fn base_script(r: &mut Rng, kind: Kind) -> Script {
         dump_len: 4096,
         responses: vec![],
         recursion: None,
+        deep: None,
         amount: r.u64v(),
         balance: r.u64v(),
         slot_time: r.u64v(),
@@ -1162,12 +1163,200 @@ pub fn big_entry_script(r: &mut Rng) -> Script {
     g.finish()
 }
 
+pub const GATE_NAMES: [&str; 10] = [
+    "gate.transfer",
+    "gate.call",
+    "gate.query_account_balance",
+    "gate.query_contract_balance",
+    "gate.query_exchange_rates",
+    "gate.check_account_signature",
+    "gate.query_account_keys",
+    "gate.query_contract_module_reference",
+    "gate.query_contract_name",
+    "gate.upgrade",
+];
+
+/// Availability of the operations of `invoke` (tags 0..=8) and of `upgrade` (9) per protocol,
+/// transcribed from the documentation of `ReceiveParams` (new_p4 .. new_p7: queries were introduced in
+/// protocol 5, account signature checks and key queries are on from new_p6, contract inspection
+/// queries were introduced in protocol 7) and of `ConcordiumAllowedImports::support_upgrade`
+/// (P5 and up). `None`: a module importing the function does not validate at all.
+pub fn gate_available(op: usize, proto: u8) -> Option<bool> {
+    match op {
+        0 | 1 => Some(true),
+        2..=4 => Some(proto >= 5),
+        5 | 6 => Some(proto >= 6),
+        7 | 8 => Some(proto >= 7),
+        _ => {
+            if proto >= 5 {
+                Some(true)
+            } else {
+                None
+            }
+        }
+    }
+}
+
+/// One well-formed operation under one protocol: it must interrupt where the protocol has the
+/// operation and trap where it has not.
+pub fn gate_script(r: &mut Rng) -> Script {
+    let combo = r.below(39);
+    let (op, proto) = if combo < 36 { ((combo / 4) as usize, 4 + (combo % 4) as u8) } else { (9usize, 5 + (combo - 36) as u8) };
+    let mut g = G::new(r, Kind::V1Receive);
+    {
+        let (r, s) = (&mut *g.r, &mut g.s);
+        fill_env(r, s);
+    }
+    g.s.proto = proto;
+    g.s.cost_v1 = proto == 7;
+    g.s.tag = GATE_NAMES[op];
+    g.hostile_den = 800;
+    let payload: Vec<u8> = match op {
+        0 => {
+            let mut p = patterned(g.r, 32);
+            p.extend_from_slice(&g.r.u64v().to_le_bytes());
+            p
+        }
+        1 => {
+            let mut p = vec![];
+            p.extend_from_slice(&g.r.u64v().to_le_bytes());
+            p.extend_from_slice(&g.r.u64v().to_le_bytes());
+            let plen = g.r.below(40) as usize;
+            p.extend_from_slice(&(plen as u16).to_le_bytes());
+            p.extend_from_slice(&patterned(g.r, plen));
+            p.extend_from_slice(&5u16.to_le_bytes());
+            p.extend_from_slice(b"entry");
+            p.extend_from_slice(&g.r.u64v().to_le_bytes());
+            p
+        }
+        2 | 6 => patterned(g.r, 32),
+        3 | 7 | 8 => patterned(g.r, 16),
+        4 => vec![],
+        5 => {
+            let n = 32 + g.r.below(100) as usize;
+            patterned(g.r, n)
+        }
+        _ => patterned(g.r, 32),
+    };
+    let b = g.blob(payload);
+    if op == 9 {
+        g.call("upgrade", vec![Arg::Ptr(b, 0)]);
+    } else {
+        g.call("invoke", vec![Arg::C32(op as u32), Arg::Ptr(b, 0), Arg::Len(b, 0)]);
+    }
+    g.call("get_receive_self_balance", vec![]);
+    g.call("get_parameter_size", vec![Arg::C32(1)]);
+    for _ in 0..g.r.below(5) {
+        g.v1_call();
+    }
+    g.finish()
+}
+
+/// Interrupts issued from nested functions with the total nesting on both sides of the limit.
+pub fn depth_interrupt_script(r: &mut Rng) -> Script {
+    let mut g = G::new(r, Kind::V1Receive);
+    {
+        let (r, s) = (&mut *g.r, &mut g.s);
+        fill_env(r, s);
+    }
+    g.s.tag = "limits.call_depth_interrupt";
+    g.hostile_den = 800;
+    let d1 = *g.r.pick(&[1u32, 10, 500, 1000, 1024]);
+    let total = *g.r.pick(&[1023u32, 1024, 1024, 1025, 1025, 1026, 1500]);
+    let d2 = total.saturating_sub(d1);
+    let mut p = patterned(g.r, 32);
+    p.extend_from_slice(&g.r.u64v().to_le_bytes());
+    let payload = g.blob(p);
+    g.s.deep = Some(Deep { d1, d2, second: g.r.chance(1, 2), payload });
+    if g.r.chance(1, 4) {
+        // top-level recursion first: it must not use up anything once it has returned
+        g.s.recursion = Some(*g.r.pick(&[1u32, 1000, 1024]));
+    }
+    g.call("get_receive_self_balance", vec![]);
+    g.call("get_parameter_size", vec![Arg::C32(1)]);
+    for _ in 0..g.r.below(5) {
+        g.v1_call();
+    }
+    g.finish()
+}
+
+/// Offsets strictly beyond the size of an entry / an iterator key / the v0 state limit.
+pub fn offset_script(r: &mut Rng) -> Script {
+    let v1 = r.chance(2, 3);
+    let kind = if v1 {
+        if r.chance(1, 2) {
+            Kind::V1Init
+        } else {
+            Kind::V1Receive
+        }
+    } else if r.chance(1, 2) {
+        Kind::V0Init
+    } else {
+        Kind::V0Receive
+    };
+    let mut g = G::new(r, kind);
+    {
+        let (r, s) = (&mut *g.r, &mut g.s);
+        fill_env(r, s);
+    }
+    g.s.tag = "limits.offset_past_end";
+    g.hostile_den = 800;
+    if v1 {
+        let kb = g.blob(vec![0x10, 0x11, 0x01, 0xff]);
+        let e = g.call("state_create_entry", vec![Arg::Ptr(kb, 0), Arg::Len(kb, 0)]);
+        g.entry_slots.push(e);
+        let d = g.blob(vec![1, 2, 3, 4]);
+        g.call("state_entry_write", vec![Arg::R64(e), Arg::Ptr(d, 0), Arg::C32(4), Arg::C32(0)]);
+        let it = g.call("state_iterate_prefix", vec![Arg::Ptr(kb, 0), Arg::C32(2)]);
+        g.iter_slots.push(it);
+        g.call("state_iterator_next", vec![Arg::R64(it)]);
+        let mut offs = vec![4u32, 5, 6, u32::MAX, 1 << 31, 3];
+        g.r.shuffle(&mut offs);
+        for o in offs {
+            match g.r.below(3) {
+                0 => {
+                    g.call("state_entry_read", vec![Arg::R64(e), Arg::Ptr(g.scratch, 0), Arg::C32(8), Arg::C32(o)]);
+                }
+                1 => {
+                    g.call("state_entry_write", vec![Arg::R64(e), Arg::Ptr(d, 0), Arg::C32(2), Arg::C32(o.max(5))]);
+                    g.call("state_entry_size", vec![Arg::R64(e)]);
+                }
+                _ => {
+                    g.call("state_iterator_key_read", vec![Arg::R64(it), Arg::Ptr(g.scratch, 16), Arg::C32(8), Arg::C32(o)]);
+                }
+            }
+        }
+    } else {
+        let first = *g.r.pick(&[0u32, 10, 16000]);
+        g.call("resize_state", vec![Arg::C32(first.max(1))]);
+        let off = 1 + g.r.below(first.max(1) as u64) as u32;
+        let len = 16384 - off + 1 + g.r.below(3000) as u32;
+        g.s.pages_min = g.s.pages_min.max(1);
+        g.call("write_state", vec![Arg::C32(2048), Arg::C32(len), Arg::C32(off)]);
+        g.call("state_size", vec![]);
+        g.call("write_state", vec![Arg::C32(2048), Arg::C32(5), Arg::C32(16383)]);
+        g.call("state_size", vec![]);
+        g.call("load_state", vec![Arg::Ptr(g.scratch, 0), Arg::C32(8), Arg::C32(16380)]);
+    }
+    for _ in 0..g.r.below(4) {
+        if v1 {
+            g.v1_call();
+        } else {
+            g.v0_call();
+        }
+    }
+    g.finish()
+}
+
 pub fn gen_case(r: &mut Rng, idx: u64) -> Script {
     match r.below(100) {
         0..=13 => limit_script(r, idx),
-        14..=19 => crypto_script(r),
-        20..=28 => interrupt_script(r),
-        29..=31 => big_entry_script(r),
+        14..=18 => crypto_script(r),
+        19..=26 => interrupt_script(r),
+        27..=29 => big_entry_script(r),
+        30..=37 => gate_script(r),
+        38..=40 => depth_interrupt_script(r),
+        41..=42 => offset_script(r),
         _ => random_script(r),
     }
 }
